@@ -18,7 +18,11 @@ ParamNames == Letters \cup Words
 (* and types the generated function bodies import or mention                                                            *)
 ContractOnlyWords == {"Error", "Deserialize", "Serialize", "Deps", "Env", "Binary"}
 Shapes == {"generic_contract", "interface_assoc"}
+(* "generic_qualified": the contract's parameter is called like a *concrete type* in a module, and the exec and sudo handlers take that  *)
+(* type by its qualified path (`other::Param`): the parameter is used by the instantiate and query messages only                       *)
+QualifiedNames == Words \cup {"T", "E", "C", "D", "Q"}
 Configs == [param : ParamNames, shape : Shapes] \cup [param : ContractOnlyWords, shape : {"generic_contract"}]
+           \cup [param : QualifiedNames, shape : {"generic_qualified"}]
 
 VARIABLES cfg, stage      \* stage: "source" | "built" | "ran"
 hvars == <<cfg, stage>>
